@@ -410,7 +410,7 @@ def wrapper_executor_fill(db, rep, rule):
 STORE_ROW_WIDTH = {"pextrb": 1, "pextrw": 2, "movd": 4, "pextrd": 4, "movq": 8, "pextrq": 8, "movdqa": 16, "movdqu": 16, "movntdq": 16, "movups": 16, "movaps": 16}
 
 
-def d6_acc_slot_width(db, rep):
+def d6_acc_slot_width(db, rep, rule="D6-ACC-SLOT-WIDTH"):
     """D6: every generated store into ex->accumulators[k] writes the whole slot.  The slot is an int that the wrapper reads back
     with orc_executor_get_accumulator() from an executor living uncleared on its stack, so a narrower store returns the
     caller's stack garbage in the upper bytes.  Width of a store = the size argument of the mov emitters, or the access width
@@ -434,6 +434,14 @@ def d6_acc_slot_width(db, rep):
             if c.name in ("orc_x86_emit_mov_reg_memoffset", "orc_x86_emit_mov_sse_memoffset", "orc_x86_emit_mov_avx_memoffset", "orc_x86_emit_mov_mmx_memoffset"):
                 width = strip_casts(a[1]).v
                 how = "size argument"
+                if width is None:
+                    # a size chosen at compile time (is_64bit ? 8 : 4): every alternative must be the slot width
+                    alts = sorted({y.v for y in a[1].walk() if y.k in ("IntegerLiteral",) and y.v is not None and y.parent is not None and y.parent.k == "ConditionalOperator"
+                                   and y.parent.c[0] is not y} | {strip_casts(b_).v for y in a[1].walk() if y.k == "ConditionalOperator" for b_ in y.c[1:3] if strip_casts(b_).v is not None})
+                    if alts:
+                        wrong = [v for v in alts if v != slot]
+                        width = wrong[0] if wrong else slot
+                        how = "size argument `%s`" % unparse(a[1])[:40]
             elif "store_memoffset" in c.name:
                 rv = strip_casts(a[1]).v
                 rname = rows[rv]["name"] if rv is not None and 0 <= rv < len(rows) else None
@@ -445,10 +453,11 @@ def d6_acc_slot_width(db, rep):
                 raise AnalysisBroken("%s: width of the accumulator store `%s` not determined" % (f.name, unparse(c)[:80]))
             n += 1
             rep.saw(f)
-            rep.check(width == slot, "D6-ACC-SLOT-WIDTH", where(f), "store:accumulators[]@%s:%s" % (f.name, c.line),
+            rep.check(width == slot, rule, where(f), "store:accumulators[]@%s:%s" % (f.name, c.line),
                       "%d-byte store (%s) fills the %d-byte slot" % (width, how, slot),
-                      "%s stores only %d byte(s) (%s) into the %d-byte slot ex->accumulators[k]: the rest keeps whatever the executor held - a generated "
-                      "wrapper reads the whole int from its uncleared stack executor, so the accumulator result comes back with garbage upper bytes" %
+                      "%s stores %d byte(s) (%s) into the %d-byte slot ex->accumulators[k]: a narrower store leaves the rest of the slot as the executor held "
+                      "it (a generated wrapper reads the whole int from its uncleared stack executor), a wider one writes past the slot - for the last "
+                      "accumulator past the end of the OrcExecutor, into the caller's stack frame" %
                       (f.name, width, how, slot), line=c.line)
     if n < 5:
         raise AnalysisBroken("only %d generated stores into ex->accumulators[] found" % n)
